@@ -182,7 +182,7 @@ PLAN["C17"] = {
     "rule": "v=3 variables, values {0,1,2}: all 243 diagrams M(asgn in {0,1,X}^3, value, default) + constants (construction, copy/assign/self-assign, 3 unary ops, VoidApply1); all ordered "
             "pairs x 4 binary leaf operations incl. a non-commutative one (+VoidApply2); all triples of a 33-element sub-basis x 2 ternary ops and 18 depth-2 operation trees; ALL 6561 "
             "functions {0,1}^3->{0,1,2}: GetPaths partition, Project (every variable subset x max/min, and x a non-idempotent and a non-commutative operation against a structural reference), Rename (all order-preserving injections into 5 variables), ExtendWith, "
-            "GetMtbddForPrefix; ALL ordered pairs of ALL functions over 2 (quick) and 3 (thorough: 43M pairs) variables; v=4; the v=3 domains again with the three variables placed at physical positions {6,7,8}/10, {7,8,9}/10, {0,8,16}/18, {14,15,16}/17, {7,15,32}/33 of a wider assignment (crossing the 8-variables-per-byte packing of SymbolicVarAsgn; every value read under all-0 and all-1 fillings of the unoccupied positions; Rename by shifts 1, 3, 8). Oracle: value for EVERY total assignment equals "
+            "GetMtbddForPrefix; ALL ordered pairs of ALL functions over 2 (quick) and 3 (thorough: 43M pairs) variables; v=4; the v=3 domains again with the three variables placed at physical positions {6,7,8}/10, {7,8,9}/10, {0,8,16}/18, {14,15,16}/17, {7,15,32}/33 of a wider assignment (crossing the 8-variables-per-byte packing of SymbolicVarAsgn; every value read under all-0 and all-1 fillings of the unoccupied positions; Rename by shifts 1, 3, 8). Apply functors are ONE object per leaf operation for the whole life of a worker (their memo tables must not survive a call) and are compared with a fresh functor. Oracle: value for EVERY total assignment equals "
             "the pointwise result, and canonicity: one representative per function table is kept for the whole life of each worker process and operator== must hold for every later "
             "diagram with the same table. Non-trivial = operands/functions not constant or not identical",
     "assumptions": COMMON_ASSUMPTIONS + ["Project with idempotent commutative combiners (max, min: the way libvata uses it) is checked against the combination over all assignments of the removed variables; with non-idempotent operations the result of a reduced ordered diagram is defined structurally (a node exists exactly where the function depends on the variable) and is checked against that definition computed from the function table; Rename only with order-preserving maps (its documented precondition); "
